@@ -398,7 +398,8 @@ Inductive op :=
 | DrawAltair                       (* _draw_grid, chart.data.values *)
 | DrawLayer (color_mode : bool) (vmin vmax : option Z) (a4 : Z)
 | Check (s : list param) (ps : list Z)
-| Split (ps : list (Z * pvalue)).
+| Split (ps : list (Z * pvalue))
+| Creator (s : list param) (ps : list (Z * pvalue)).   (* ModelCreator's parameter check *)
 
 Definition find_agent (id : Z) (l : list agent) : option agent := find (fun a => a_id a =? id) l.
 Definition occupied (p : coord) (l : list agent) : bool := existsb (at_cell p) l.
@@ -541,6 +542,11 @@ Definition step (sp : space) (pt : portrayal) (st : state) (o : op) : state * li
       end
   | Check s ps => (st, let r := check s ps in if r =? 0 then [0] else obs_err r)
   | Split ps => (st, obs_split ps)
+  | Creator s ps =>
+      (* user_params, fixed_params = split_model_params(user_params);
+         _check_model_params(model.__class__.__init__, {**fixed_params, **user_params})  (as repaired) *)
+      let sp' := split_model_params ps in
+      (st, let r := check s (map fst (snd sp' ++ fst sp')) in if r =? 0 then [0] else obs_err r)
   end.
 
 Fixpoint run_ops (sp : space) (pt : portrayal) (st : state) (ops : list op) : list (list Z) :=
